@@ -19,6 +19,7 @@ VARIANTS = [
     V("is-in-clip-minimum-sign", O, "start_time >= clip.end_time - minimum_overlap", "start_time >= clip.end_time + minimum_overlap", "R12.5"),
     V("absolute-threshold-ignored", O, "    if min_absolute_overlap is not None:\n        overlap = min_absolute_overlap\n\n", "", "R12.2"),
     V("asymmetric-width", O, "        min_width = min(\n            stop1 - start1,\n            stop2 - start2,\n        )", "        min_width = stop1 - start1", "R12"),
+    V("thresholds-swapped-in-signature(G.4)", "src/soundevent/geometry/operations.py", "    interval2: tuple[float, float],\n    min_absolute_overlap: Optional[float] = None,\n    min_relative_overlap: Optional[float] = None,\n):", "    interval2: tuple[float, float],\n    min_relative_overlap: Optional[float] = None,\n    min_absolute_overlap: Optional[float] = None,\n):", "G.4"),
     # neutral
     V("N-le-flipped", O, "    return stop - start >= overlap", "    return overlap <= stop - start", None),
     V("N-swap-max-args", O, "    start = max(start1, start2)", "    start = max(start2, start1)", None),
